@@ -473,6 +473,14 @@ class Normalizer:
             return P_atom(A("store", wrap(self.nf(base)), fi, wrap(self.nf(val))))
         if op == "unk":
             return P_atom(A("unk", a[0], a[1]))
+        if op in ("gt", "ge") and len(a) == 2:
+            # a > b  ==  b < a
+            return P_atom(A("lt" if op == "gt" else "le", self.freeze(a[1]), self.freeze(a[0])))
+        if op in ("eq", "ne") and len(a) == 2:
+            x, y = self.freeze(a[0]), self.freeze(a[1])
+            if id(x) > id(y) if (isinstance(x, Node) and isinstance(y, Node)) else repr(x) > repr(y):
+                x, y = y, x
+            return P_atom(A(op, x, y))
         if op in ("floor", "ceil") and len(a) == 1:
             # floor(x + 1/2) and ceil(x - 1/2) are the nearest-integer map (up to ties)
             p = self.nf(a[0])
